@@ -83,6 +83,9 @@ func (w *World) functionsFor(prop string) []*ssa.Function {
 			continue
 		}
 		key := funcKey(f)
+		if w.checkedInContext(f) {
+			continue
+		}
 		if prop == "C13" {
 			out = append(out, f)
 			continue
